@@ -172,6 +172,10 @@ pub trait Subject {
     fn default(&self) -> Option<Obs> {
         None
     }
+    /// declarations whose first bound is read from a run-time cell (`poke=` tag): set the cell; false when there is none
+    fn poke(&self, _v: i64) -> bool {
+        false
+    }
     fn views(&self, _raw: &Value) -> Option<Views> {
         None
     }
